@@ -43,20 +43,25 @@ def words_for(scope, tier):
             w += [x for x in cm.words('bcu', 3) if x.count('u') == 1]
         else:
             w = cm.words('abmf', 4 if tier == 'thorough' else 3)
-            w += [x for x in cm.words('abu', 2) if x.count('u') == 1]
+            w += [x for x in cm.words('abu', 2) if x.count('u') == 1] + [x for x in cm.words('abk', 3) if 'k' in x]
         _WORDS[k] = w
     return _WORDS[k]
 
 
 def key(ver, m, w, oc=None):
-    return '%s|%s%s|%s' % (ver, cm.show(m), '' if not oc else '~%s%s' % oc, w)
+    return '%s|%s%s|%s' % (ver, cm.show(m), '' if not oc else '~' + ''.join(map(str, oc)), w)
 
 
 def accepts(A, w, oc):
     """Reference membership, with XSD 1.1 open content (wildcard disjoint from the model's names)."""
     if not oc:
         return A.accepts(w)
-    mode, wk = oc
+    mode, wk = oc[0], oc[1]
+    if mode.startswith('default-'):
+        mode = mode[8:]
+        empty_model = A.m[0] != 'e' and not A.m[1]
+        if empty_model and not oc[2]:
+            return A.accepts(w)       # defaultOpenContent does not apply to an empty content type
     ws = cm.LEAF[wk]
     if mode == 'interleave':
         return A.accepts(''.join(ch for ch in w if ch not in ws))
@@ -186,9 +191,19 @@ def s4_models(ver):
         out.append(((m[0], kids, m[2], m[3]), None))
     if ver == '11':
         base = [m for m in cm.scope(names='bc', occs=cm.OCC5, max_leaves=2)]
-        for m in rnd.sample(base, 600):
+        empty = ('seq', [], 1, 1)
+        for m in rnd.sample(base, 600) + [empty, ('seq', [('e', 'b', 0, 1)], 1, 1), ('cho', [('e', 'b', 1, 1)], 0, 1)]:
             for mode in ('interleave', 'suffix'):
                 out.append((m, (mode, 'w')))
+        # schema-level defaultOpenContent, with and without appliesToEmpty, over empty and small models
+        for m in rnd.sample(base, 120) + [empty, ('seq', [('e', 'b', 0, 1)], 1, 1)]:
+            for mode in ('interleave', 'suffix'):
+                for ate in (False, True):
+                    out.append((m, ('default-' + mode, 'w', ate)))
+    # substitution chains through an abstract member: head a <- n (abstract) <- k
+    for occ in cm.OCC5:
+        out.append((('seq', [('e', 'a') + occ, ('e', 'b', 0, 1)], 1, 1), None))
+        out.append((('cho', [('e', 'a') + occ, ('e', 'c', 1, 1)], 1, 2), None))
     return out
 
 
@@ -229,7 +244,7 @@ def run_shard(desc):
     elif desc[0] == 'S4':
         _, ver, k, n, tier, seed = desc
         items = s4_models(ver)[k::n]
-        w = cm.words('abmf', 4 if tier == 'thorough' else 3)
+        w = cm.words('abmf', 4 if tier == 'thorough' else 3) + [x for x in cm.words('abkf', 3) if 'k' in x]
         # group by open-content variant (one schema per variant and batch)
         by = {}
         for m, oc in items:
